@@ -28,6 +28,10 @@ type RunningCase struct {
 	Shutdown bool   `json:"shutdown,omitempty"` // Shutdown(background) instead of Wait
 	WaitMs   int    `json:"wait_ms"`            // fake time at which Wait/Shutdown is called (after the last publish)
 	Procs    int    `json:"procs"`
+	// Tail: that many further events are published with a live context right
+	// after the contexts above have been cancelled.  Whatever the cancelled
+	// deliveries did to a handler's line, these run exactly once each.
+	Tail int `json:"tail,omitempty"`
 }
 
 type RunH struct {
@@ -71,7 +75,7 @@ func RunRunning(t *testing.T, c *RunningCase) *vkit.Outcome {
 				opts = append(opts, eventbus.WithStore(store))
 			}
 			bus := eventbus.New(opts...)
-			counts := make([]atomic.Int32, len(c.Handlers)*c.Pubs)
+			counts := make([]atomic.Int32, len(c.Handlers)*(c.Pubs+c.Tail))
 			for hi, h := range c.Handlers {
 				hi, h := hi, h
 				body := func(id int) {
@@ -128,6 +132,15 @@ func RunRunning(t *testing.T, c *RunningCase) *vkit.Outcome {
 				eventbus.PublishContext(bus, ctx, Ev{ID: p})
 				time.Sleep(time.Duration(c.GapMs) * time.Millisecond)
 			}
+			if c.Tail > 0 {
+				// fake time: until just after the canceller has gone by
+				if rest := c.CancelMs - c.Pubs*c.GapMs; rest >= 0 {
+					time.Sleep(time.Duration(rest)*time.Millisecond + time.Microsecond)
+				}
+				for p := c.Pubs; p < c.Pubs+c.Tail; p++ {
+					eventbus.PublishContext(bus, context.Background(), Ev{ID: p})
+				}
+			}
 			time.Sleep(time.Duration(c.WaitMs) * time.Millisecond)
 			if c.Shutdown {
 				if err := bus.Shutdown(context.Background()); err != nil {
@@ -143,6 +156,9 @@ func RunRunning(t *testing.T, c *RunningCase) *vkit.Outcome {
 			for i := range counts {
 				if n := counts[i].Load(); n > 1 {
 					o.Failf("", "handler %d ran %d times for event %d", i%len(c.Handlers), n, i/len(c.Handlers))
+				}
+				if n := counts[i].Load(); n != 1 && i/len(c.Handlers) >= c.Pubs {
+					o.Failf("", "handler %d %+v ran %d times for event %d, which was published with a live context after the earlier publishes' contexts had been cancelled (at %d ms): exactly once", i%len(c.Handlers), c.Handlers[i%len(c.Handlers)], n, i/len(c.Handlers), c.CancelMs)
 				}
 			}
 			if c.Shutdown && store.closes.Load() != 1 {
@@ -169,6 +185,9 @@ func RunRunning(t *testing.T, c *RunningCase) *vkit.Outcome {
 	}
 	if started.Load() != finished.Load() {
 		o.Failf("", "%d invocations started, %d finished", started.Load(), finished.Load())
+	}
+	if c.Tail > 0 {
+		o.Class("live_publishes_after_the_cancellation")
 	}
 	if midRun.Load() {
 		o.Nontrivial = true
